@@ -3,12 +3,12 @@ import impl
 
 # the last five: an operator word glued to the rest by a key character, numbers written in two ways
 WORDS = ['a', 'b', 'c', 'gpl', '2.0', 'mit', 'gnu', 'later', 'x', 'v2', '+', 'lgpl-2.1', 'bsd', 'foo',
-         'or-later', 'with:x', 'and+', 'gpl-10', 'gpl-02', 'LicenseRef-acme-1.0', 'file']
+         'or-later', 'with:x', 'and+', 'gpl-10', 'gpl-02', 'LicenseRef-acme-1.0', 'file', 'acme-inc.']
 OPWORDS = ['and', 'or', 'with']
 # the last two: letters that str.lower() leaves alone and casefold() / NFKC do not (fi ligature, final sigma)
 ODDWORDS = ['\u0130x', '\u01c5', 'Stra\xdfe', '\xc9t\xe9', '\u03a9m', '\ufb01le', '\u03bf\u03c2']
 # characters that are not allowed in a key; the last four have no Unicode name (controls, private use, noncharacter)
-BADWORDS = ['a$', 'b/c', 'x&y', '*', 'mit\x07', 'gpl\x7f2.0', '\x9bbar', '\ue000x', 'y\ufffe']
+BADWORDS = ['a$', 'b/c', 'x&y', '*', 'mit\x07', 'gpl\x7f2.0', '\x9bbar', '\ue000x', 'y\ufffe', 'mit\u200b', '\ufeffgpl']
 BLANKS = impl.WS
 
 
